@@ -309,8 +309,15 @@ func buildServer(c serverCase) (*httpgrpc.Server, func()) {
 	}
 }
 
-func runServer(c serverCase) reply {
-	srv, done := buildServer(c)
+// runServer: the case's handler on a recorder. A panic of the library (building the
+// server or serving the request) is in the panic log afterwards (guard.go).
+func runServer(c serverCase) (rp reply) {
+	takePanics()
+	var srv *httpgrpc.Server
+	done := func() {}
+	if !guarded("server", func() { srv, done = buildServer(c) }) {
+		return reply{hdr: http.Header{}}
+	}
 	defer done()
 	reqBody, _ := proto.Marshal(wrapperspb.String("req"))
 	ctx, cancel := context.WithCancel(context.Background())
@@ -323,9 +330,8 @@ func runServer(c serverCase) reply {
 	if c.Timeout != "" {
 		req.Header.Set("GRPC-Timeout", c.Timeout)
 	}
-	rec := httptest.NewRecorder()
-	srv.ServeHTTP(rec, req)
-	return reply{rec.Code, rec.Header(), rec.Body.Bytes()}
+	rp, _ = serveRecorded("server", srv, req)
+	return rp
 }
 
 // errBody fails after delivering its bytes, like a connection that breaks between the
@@ -606,6 +612,27 @@ type collapser struct {
 	collapsed int
 }
 
+// skip: the group has been reported already (the case at hand would only be collapsed).
+func (k *collapser) skip(group string) bool {
+	if k.seen[group] {
+		k.collapsed++
+		return true
+	}
+	return false
+}
+
+// firstFailure: the first failing verdict of a list (replay).
+func firstFailure(res []evalRes) (string, string) {
+	obs := ""
+	for _, r := range res {
+		if r.Clause != "" {
+			return r.Clause, r.Obs
+		}
+		obs = r.Obs
+	}
+	return "", obs
+}
+
 func (k *collapser) report(group, extra, what string, replay interface{}) {
 	if k.seen[group] {
 		k.collapsed++
@@ -706,6 +733,9 @@ func main() {
 	if len(os.Args) > 1 && os.Args[1] == regChildFlag {
 		regChildMain() // one sequence of registrations in a process of its own (register.go)
 	}
+	if len(os.Args) > 1 && os.Args[1] == evalChildFlag {
+		evalChildMain() // the evaluations that make streaming calls (isolate.go)
+	}
 	rep := vlib.NewReporter("C14")
 	go watchdog()
 	optSets := allOptSets()
@@ -754,6 +784,10 @@ func main() {
 				break
 			}
 			rp := runServer(c)
+			if cl, d, bad := serverPanicVerdict(""); bad {
+				clause, obs = cl, d
+				break
+			}
 			clause, obs = checkServerReply(c, rp)
 			for _, o := range sets {
 				if clause != "" {
@@ -764,6 +798,10 @@ func main() {
 		case "client":
 			var c clientCase
 			common.LoadReplay(p, &c)
+			if c.Stream {
+				clause, obs = firstFailure(isolated("stream-client", c, sets))
+				break
+			}
 			for _, o := range sets {
 				if clause, obs = checkClient(c, o); clause != "" {
 					break
@@ -772,16 +810,16 @@ func main() {
 		case "stream":
 			var c streamCase
 			common.LoadReplay(p, &c)
-			for _, o := range sets {
-				if clause, obs = checkStream(c, o); clause != "" {
-					break
-				}
-			}
+			clause, obs = firstFailure(isolated("stream", c, sets))
 		case "carrier":
 			var c carrierCase
 			common.LoadReplay(p, &c)
 			if probe.Opts == nil {
 				sets = []optSet{{}, {H: 1, T: 1}}
+			}
+			if c.Stream {
+				clause, obs = firstFailure(isolated("carrier", c, sets))
+				break
 			}
 			for _, o := range sets {
 				if clause, obs = checkCarrier(c, o); clause != "" {
@@ -789,10 +827,13 @@ func main() {
 				}
 			}
 		case "registrations":
-			// a replay is a fresh process: the sequence runs right here
+			// the sequence runs in a child, as in the enumeration
 			var c regCase
 			common.LoadReplay(p, &c)
-			res := runRegCase(c)
+			res, err := runRegChild(c)
+			if err != nil {
+				inconclusive("%v", err)
+			}
 			obs = res.Sample
 			if len(res.Fails) > 0 {
 				f := res.Fails[0]
@@ -862,6 +903,10 @@ func main() {
 	reportServer := func(c serverCase, o optSet, clause, obs string) {
 		cc := c
 		cc.Opts = &o
+		if isLibPanic(clause) {
+			col.report(c.panicGroup(clause), c.panicExtras(clause, o), clause+": "+obs, cc)
+			return
+		}
 		if g, ok := c.optGroup(o, clause); ok {
 			col.report(g, c.optExtras(o), clause+": "+obs, cc)
 			return
@@ -888,6 +933,11 @@ func main() {
 		}
 		rp := runServer(c)
 		evals++
+		if clause, obs, bad := serverPanicVerdict(""); bad {
+			distinct.add(key)
+			col.report(c.panicGroup(clause), c.panicExtras(clause, optSet{}), clause+": "+obs, c)
+			return
+		}
 		// non-trivial: the handler failed, or the reply carries a status / details header
 		// although it succeeded (a colliding entry that reached the wire)
 		nontrivial := c.Code != 0 || c.OKErr || len(rp.hdr.Values("X-GRPC-Status")) > 0 || len(rp.hdr.Values("X-GRPC-Details")) > 0
@@ -985,12 +1035,26 @@ func main() {
 	headers := []string{"<absent>", "", "x:y", ":", "5", "5:a:b: c"}
 	doClient := func(c clientCase, sets []optSet) {
 		current.Store(fmt.Sprintf("%+v", c))
-		for _, o := range sets {
+		var isoRes []evalRes
+		if c.Stream {
+			// a streaming call: evaluated in the child (isolate.go); nothing more is asked of
+			// a group whose call already took the process down
+			if col.skip(c.group(escapedClause)) {
+				return
+			}
+			isoRes = isolated("stream-client", c, sets)
+		}
+		for i, o := range sets {
 			evals++
 			if o.X != "" || o.Len != "" {
 				extraEvals++
 			}
-			clause, obs := checkClient(c, o)
+			var clause, obs string
+			if c.Stream {
+				clause, obs = isoRes[i].Clause, isoRes[i].Obs
+			} else {
+				clause, obs = checkClient(c, o)
+			}
 			distinct.add(fmt.Sprintf("cli|%v|%d|%s|%v|%v|%s|%s", c.Stream, c.HTTP, c.Header, c.MD, c.Details, c.Body, o))
 			if len(samples) < 10 && c.HTTP%137 == 0 && c.Header == "<absent>" && c.MD && !c.Details && c.Body == "" && o.H == 1 && o.T == 1 && !o.Peer && !o.Creds {
 				samples = append(samples, map[string]interface{}{"case": c, "opts": o.String(), "observed": obs})
@@ -999,7 +1063,7 @@ func main() {
 				o := o
 				cc := c
 				cc.Opts = &o
-				if o.X != "" {
+				if o.X != "" && !isLibPanic(clause) {
 					kind := "client-opt"
 					if c.Stream {
 						kind = "stream-client-opt"
@@ -1082,12 +1146,16 @@ func main() {
 								// the extra option kinds (extra.go), alone and with one of each older kind
 								sets = append(append([]optSet(nil), optSets...), liveExtra...)
 							}
-							for _, o := range sets {
+							if col.skip(fmt.Sprintf("C14|stream|code=%d|%s", code, escapedClause)) {
+								continue
+							}
+							isoRes := isolated("stream", c, sets)
+							for i, o := range sets {
 								evals++
 								if o.X != "" {
 									extraEvals++
 								}
-								clause, obs := checkStream(c, o)
+								clause, obs := isoRes[i].Clause, isoRes[i].Obs
 								if code != 0 {
 									distinct.add(fmt.Sprintf("str|%d|%s|%s|%d|%d|%s", code, md, msg, det, n, o))
 								}
@@ -1098,7 +1166,7 @@ func main() {
 									o := o
 									cc := c
 									cc.Opts = &o
-									if o.X != "" {
+									if o.X != "" && !isLibPanic(clause) {
 										outcome := "failure"
 										if code == 0 {
 											outcome = "success"
@@ -1118,10 +1186,11 @@ func main() {
 	for _, md := range []string{"", "both"} {
 		c := streamCase{Kind: "stream", OKErr: true, MD: md}
 		current.Store(fmt.Sprintf("%+v", c))
-		for _, o := range optSets {
+		isoRes := isolated("stream", c, optSets)
+		for i, o := range optSets {
 			evals++
 			distinct.add(fmt.Sprintf("str|okerr|%s|%s", md, o))
-			if clause, obs := checkStream(c, o); clause != "" {
+			if clause, obs := isoRes[i].Clause, isoRes[i].Obs; clause != "" {
 				o := o
 				cc := c
 				cc.Opts = &o
@@ -1260,9 +1329,13 @@ func main() {
 	// (h) streams: SetHeader / SendHeader / SetTrailer with a colliding key
 	doStream := func(c streamCase, sets []optSet) {
 		current.Store(fmt.Sprintf("%+v", c))
-		for _, o := range sets {
+		if col.skip(fmt.Sprintf("C14|stream|code=%d|%s", c.Code, escapedClause)) {
+			return
+		}
+		isoRes := isolated("stream", c, sets)
+		for i, o := range sets {
 			evals++
-			clause, obs := checkStream(c, o)
+			clause, obs := isoRes[i].Clause, isoRes[i].Obs
 			distinct.add(fmt.Sprintf("str|%s|%v|%d|%d|%d|%s", c.Collide, c.Wire, c.Code, c.Details, c.NMsgs, o))
 			if extraSamples < 8 && c.Code == 5 && c.NMsgs == 1 && !c.Wire && c.Collide.Val == "ok" && c.Collide.Place != "tlr" && o.H == 1 && o.T == 1 && !o.Peer && !o.Creds {
 				extraSamples++
@@ -1279,6 +1352,11 @@ func main() {
 				tail := fmt.Sprintf("|code=%d", c.Code)
 				if c.Wire {
 					tail += "|wire"
+				}
+				if isLibPanic(clause) {
+					// grouped with the plain streaming cases of the code: the colliding entry goes into the tail
+					col.report(fmt.Sprintf("C14|stream|code=%d|%s", c.Code, clause), "|collide="+c.Collide.String()+strings.TrimPrefix(tail, fmt.Sprintf("|code=%d", c.Code))+extras("", "", c.Details, o)+fmt.Sprintf("|nmsgs=%d", c.NMsgs), clause+": "+obs, cc)
+					continue
 				}
 				col.report(fmt.Sprintf("C14|stream-collide|%s|%s|%s", c.Collide, outcome, clause), tail+extras("", "", c.Details, o)+fmt.Sprintf("|nmsgs=%d", c.NMsgs), clause+": "+obs, cc)
 			}
@@ -1321,9 +1399,21 @@ func main() {
 		} else {
 			carrierCases++
 		}
-		for _, o := range wireSets {
+		var isoRes []evalRes
+		if c.Stream {
+			if col.skip(c.group(escapedClause)) {
+				return
+			}
+			isoRes = isolated("carrier", c, wireSets)
+		}
+		for i, o := range wireSets {
 			evals++
-			clause, obs := checkCarrier(c, o)
+			var clause, obs string
+			if c.Stream {
+				clause, obs = isoRes[i].Clause, isoRes[i].Obs
+			} else {
+				clause, obs = checkCarrier(c, o)
+			}
 			if !c.succeeds() {
 				distinct.add(fmt.Sprintf("carrier|%+v|%s", c, o))
 			}
@@ -1336,7 +1426,7 @@ func main() {
 				o := o
 				cc := c
 				cc.Opts = &o
-				col.report(c.group(), c.extras(clause, o), clause+": "+strings.ReplaceAll(obs, "\n", `\n`), cc)
+				col.report(c.group(clause), c.extras(clause, o), clause+": "+strings.ReplaceAll(obs, "\n", `\n`), cc)
 			}
 		}
 	}
@@ -1422,6 +1512,7 @@ func main() {
 		}
 	}
 	lap("registrations")
+	iso.stop()
 	os.Exit(rep.Finish("exploration", map[string]interface{}{
 		"evaluations":         evals,
 		"distinct_nontrivial": len(distinct) + regNontrivial,
@@ -1434,6 +1525,7 @@ func main() {
 			len(gatewayCodes), map[bool]string{true: "request live/cancelled", false: "request live; the 24 quick-tier codes and live/cancelled in the thorough tier"}[thorough], chainCases, wireCases, len(streamCollides)/3, streamCollideCases,
 			len(allCarriers()), carrierCases, carrierStreamCases, len(allRegSpecs()), len(tripleSpecs), len(regCases), tripleCodes, regProbes,
 			len(extraIDs), respSize, reqSize, len(extraSets), map[bool]string{true: "{none, header, trailer, header+trailer, peer, creds, one of each, two headers + two trailers + peer + creds}", false: "{no other option, one of each older kind}"}[thorough], map[bool]string{true: "declared / chunked", false: "declared / chunked for the size options and for no extra, declared for the rest"}[thorough], len(sweepExtra), len(wireCodes), strings.Join(renderersA, "/"), extraWireCases),
+		"eval_child_restarts":    iso.Restarts,
 		"extra_option_lists":     len(extraSets),
 		"extra_evaluations":      extraEvals,
 		"loopback_plain_cases":   extraWireCases,
